@@ -6,6 +6,7 @@ import (
 	"errors"
 	"fmt"
 	"io"
+	"regexp"
 	"sort"
 	"strconv"
 	"strings"
@@ -62,8 +63,11 @@ func ErrKind(err error) string {
 			return k.Error()
 		}
 	}
-	return "other:" + err.Error()
+	return "other:" + requestIDRe.ReplaceAllString(err.Error(), "RequestID: -")
 }
+
+// request ids in SDK error texts differ from run to run
+var requestIDRe = regexp.MustCompile(`RequestID: [0-9A-Za-z]+`)
 
 func sp(s string) *string { return &s }
 
